@@ -9,6 +9,7 @@ import Driver.Shard
 import Driver.Race
 import Netpoll.Gen.Consts
 import Driver.Dial
+import Driver.Fd
 def main (args : List String) : IO UInt32 := do
   match args with
   | ["lb"] => Driver.Lb.main; return 0
@@ -25,4 +26,5 @@ def main (args : List String) : IO UInt32 := do
   | ["dial-d13"] => Driver.Dial.main Netpoll.Dial.d13Cfg; return 0
   | ["dialspec", impl] => Driver.Dial.specMain impl; return 0
   | ["dialadmit"] => Driver.Dial.admitMain Netpoll.Dial.fixedCfg; return 0
+  | ["fd"] => Driver.Fd.main; return 0
   | _ => IO.eprintln "usage: npdriver <mode> ... (see lean/Driver/Main.lean)"; return 2
